@@ -1002,21 +1002,29 @@ where
             lc
         })
         .collect();
-    sorted_lcs.sort_by(|a, b| {
-        if let Some(b_resume_lc) = &b.resume_lc {
-            if b_resume_lc.id == a.id {
-                // b is a resume of a so a must be earlier
-                return std::cmp::Ordering::Less;
+    // we need a total order: sort by start_time but enforce that a resumed lifecycle
+    // is sorted after the lifecycle it resumed (even if its calculated start time is earlier)
+    let sort_time = |lc: &Lifecycle| -> u64 {
+        let mut time = lc.start_time;
+        let mut cur = lc;
+        let mut depth = 0;
+        while let Some(resume_lc) = &cur.resume_lc {
+            depth += 1;
+            match lcr.get_one(&resume_lc.id) {
+                Some(origin) if depth < 1000 => {
+                    // the chain of resumed lifecycles: each one needs to be later than the resumed one
+                    time = std::cmp::max(time, origin.start_time.saturating_add(depth));
+                    cur = origin;
+                }
+                _ => {
+                    time = std::cmp::max(time, resume_lc.start_time.saturating_add(depth));
+                    break;
+                }
             }
         }
-        if let Some(a_resume_lc) = &a.resume_lc {
-            if a_resume_lc.id == b.id {
-                // a is a resume of b so b must be earlier
-                return std::cmp::Ordering::Greater;
-            }
-        }
-        a.start_time.cmp(&b.start_time)
-    });
+        time
+    };
+    sorted_lcs.sort_by_cached_key(|lc| (sort_time(lc), lc.id));
     sorted_lcs
 }
 
